@@ -11,7 +11,10 @@ cd "$WT" || exit 2
 git checkout -q -- . && git clean -qfd && git checkout -q --detach main
 cp "$SRC/demo.py" /tmp/demo_${PID}_${MK}.py
 ( cd "$WT" && cp /tmp/demo_${PID}_${MK}.py ./_demo_tmp.py && timeout 600 /venv/bin/python _demo_tmp.py >/tmp/demo_${PID}_${MK}.clean.log 2>&1 ); CLEAN=$?
-git apply "$SRC/patch.diff" || { echo "PATCH DOES NOT APPLY"; rm -f _demo_tmp.py; exit 3; }
+REBASED=no
+git apply "$SRC/patch.diff" 2>/dev/null || { patch -p1 --fuzz=3 -s < "$SRC/patch.diff" && REBASED=yes; } || { echo "PATCH DOES NOT APPLY"; rm -f _demo_tmp.py *.rej *.orig; exit 3; }
+find . -name '*.orig' -delete
+git diff > /tmp/patch_${PID}_${MK}.rebased.diff
 ( cd "$WT" && timeout 600 /venv/bin/python _demo_tmp.py >/tmp/demo_${PID}_${MK}.mut.log 2>&1 ); MUT=$?
 rm -f _demo_tmp.py
 TESTS="skipped"
@@ -21,7 +24,8 @@ fi
 cd $V
 OUT=$(VERIF_REPO=$WT VERIF_NO_EVIDENCE=1 VERIF_NOSHRINK=1 ./check $PID --tier quick 2>&1 | grep -v "^KNOWN-FINDING" | tail -6); RC=$?
 mkdir -p seeded/$PID-$MK
-cp "$SRC/patch.diff" "$SRC/demo.py" seeded/$PID-$MK/
+cp "$SRC/demo.py" seeded/$PID-$MK/
+cp /tmp/patch_${PID}_${MK}.rebased.diff seeded/$PID-$MK/patch.diff
 CAUGHT=no; echo "$OUT" | grep -q "^VIOLATION" && CAUGHT=yes
 /venv/bin/python - "$PID" "$MK" "$CLEAN" "$MUT" "$TESTS" "$CAUGHT" "$SRC/meta.json" <<'PY'
 import json,sys
